@@ -11,7 +11,7 @@ import (
 
 func init() {
 	register("C21", propMeta{
-		Explanation:  "Decides the guards a map-like registry file needs: (R1) identity guards: registryMap.set and registryMap.remove compare the LogicalID stored in the located slot with the requested id and fail on a mismatch before anything is written or zeroed; remove also fails on an empty slot; (R2) findAndAdd takes the logical-slot lock before it looks for a slot and keeps it (deferred Unlock) until the block write is done, so two adders of colliding ids cannot choose the same free slot; (R3) lookups scan the whole block: in findOneFileRegion the scan loop ranges over the constant handlesPerBlock, steps by HandleSizeInBytes on every continuing path, compares every occupied slot's LogicalID with the requested id, and has no exit other than a return (found / free slot for a writer) or exhaustion - in particular an empty slot does not end a lookup, because removals leave holes in front of displaced records; when the block is exhausted the search continues in the next segment file; (R4) fetch skips only the 'id not found' condition and returns every other error. (R5) a slot update never disturbs the other slots of its block: every caller of writeBlockRegionPayload rewrites the image it read from the same file and offset under the current hold of the block lock.",
+		Explanation:  "Decides the guards a map-like registry file needs: (R1) identity guards: registryMap.set and registryMap.remove compare the LogicalID stored in the located slot with the requested id and fail on a mismatch before anything is written or zeroed; remove also fails on an empty slot; (R2) findAndAdd takes the logical-slot lock before it looks for a slot and keeps it (deferred Unlock) until the block write is done, so two adders of colliding ids cannot choose the same free slot; (R3) lookups scan the whole block: in findOneFileRegion the scan loop ranges over the constant handlesPerBlock, steps by HandleSizeInBytes on every continuing path, compares every occupied slot's LogicalID with the requested id, and has no exit other than a return (found / free slot for a writer) or exhaustion - in particular an empty slot does not end a lookup, because removals leave holes in front of displaced records; when the block is exhausted the search continues in the next segment file; (R4) fetch skips only the 'id not found' condition and returns every other error. (R5) a slot update never disturbs the other slots of its block: every caller of writeBlockRegionPayload rewrites the image it read from the same file and offset under the current hold of the block lock. (R6) findOneFileRegion locates by id in both modes: a location is returned only for the id's own record or after every segment file was searched; (R7) every located region handed to the slot writers is written.",
 		DoesNotCover: "Map semantics over operation sequences (last-writer-wins, a removed id never reappears) and hash/offset arithmetic beyond C24's layout obligations are not decided.",
 	}, runC21)
 }
